@@ -19,6 +19,8 @@ func init() {
 var profileOf = map[string]string{"C01": "compose", "C02": "selector", "C03": "rangefn", "C04": "aggr", "C05": "binary", "C06": "func",
 	"C18": "compose", "C19": "extreme", "C17": "compose", "C13": "aggr"}
 
+var profileOfDiff = map[string]bool{"C01": true, "C02": true, "C03": true, "C04": true, "C05": true, "C06": true}
+
 func lookbacks(r *rand.Rand) (eng, q int64) {
 	eng = []int64{0, 0, 1000, 7000, 60000, 300000}[r.Intn(6)]
 	if r.Intn(10) < 3 {
@@ -185,7 +187,11 @@ func diffMain(x *X) {
 	x.queryOracles(o, op, st)
 	x.R.Brief = o.Brief()
 	ref := RefQuery(op, c.Data, op.Eng.LookbackMs)
-	x.diffOracle(c.Prop, op, o, ref, c.Data)
+	prop := c.Prop
+	if _, ok := profileOfDiff[prop]; !ok {
+		prop = "C01" // the case was generated for another property's check (C18, C19, ...)
+	}
+	x.diffOracle(prop, op, o, ref, c.Data)
 }
 
 func (x *X) diffOracle(prop string, op Op, o, ref *Outcome, data []store.Series) {
@@ -264,7 +270,7 @@ func orderSensitive(op Op, data []store.Series, base *Result) bool {
 	if len(data) < 2 {
 		return false
 	}
-	for _, seed := range []int64{11, 23, 37, 41} {
+	for _, seed := range []int64{11, 23, 37, 41, 53, 67, 79, 83} {
 		o := RefQueryPerm(op, data, op.Eng.LookbackMs, seed)
 		if o.Res == nil || Compare(o.Res, base, Tol).Kind != "" {
 			return true
